@@ -347,13 +347,20 @@ func c18(ctx *Ctx) (*Outcome, error) {
 		{"empty yaml file", []string{"-p", "x", "-o", "o.go", "empty.yaml"}, false},
 		{"valid control", []string{"-p", "x", "-o", "o.go", "a.json"}, false},
 		{"stdin unparsable", []string{"-p", "x", "-o", "o.go", "-"}, true},
+		// nothing listens on the loopback port: the transport error comes back at once, without any network
+		{"http URL as input, connection refused", []string{"-p", "x", "-o", "o.go", "http://127.0.0.1:1/schemas/order.json"}, true},
+		{"http URL as second input, connection refused", []string{"-p", "x", "-o", "o.go", "a.json", "http://127.0.0.1:1/schemas/order.yaml"}, true},
+		{"$ref to an unreachable http URL", []string{"-p", "x", "-o", "o.go", "httpref.json"}, true},
+		{"$ref to an unreachable http URL, whole document, after a fine input", []string{"-p", "x", "-o", "o.go", "a.json", "httpref2.yaml"}, true},
 	}
 	for rep := 0; rep < ctx.N(2, 6); rep++ {
 		for _, fc := range flagCases {
 			inv := &cli.Inv{Files: []batch.File{{Path: "a.json", Data: good}, {Path: "b.json", Data: good2}, {Path: "broken.json", Data: []byte(`{"type":`)},
 				{Path: "ntorder.json", Data: []byte(`{"$id":"https://example.com/nto","title":"Order","type":"object","properties":{"buyer":{"$ref":"#/$defs/Customer"}},"$defs":{"Customer":{"title":"Customer","type":"object","properties":{"name":{"type":"string"}}}}}`)},
 				{Path: "customer.json", Data: []byte(`{"$id":"https://example.com/ntc","title":"Customer","type":"object","properties":{"name":{"type":"string"}},"$defs":{"Loyalty":{"type":"object","properties":{"points":{"type":"strng"}}}}}`)}, {Path: "badtype.json", Data: []byte(`{"$id":"https://example.com/bt","type":"object","properties":{"addr":{"type":"object","properties":{"z":{"type":"string"}}},"w":{"type":"kilogram"}}}`)},
-				{Path: "badref.json", Data: []byte(`{"$id":"https://example.com/br","type":"object","properties":{"r":{"$ref":"#/$defs/Nope"}}}`)}, {Path: "badenum.json", Data: []byte(`{"$id":"https://example.com/be","type":"object","properties":{"e":{"enum":[]}}}`)}, {Path: "empty.json", Data: nil}, {Path: "empty.yaml", Data: nil}, {Path: "adir/keep", Data: []byte("x")}},
+				{Path: "badref.json", Data: []byte(`{"$id":"https://example.com/br","type":"object","properties":{"r":{"$ref":"#/$defs/Nope"}}}`)}, {Path: "badenum.json", Data: []byte(`{"$id":"https://example.com/be","type":"object","properties":{"e":{"enum":[]}}}`)}, {Path: "empty.json", Data: nil}, {Path: "empty.yaml", Data: nil},
+				{Path: "httpref.json", Data: []byte(`{"$id":"https://example.com/hr","type":"object","properties":{"n":{"type":"string"},"r":{"$ref":"http://127.0.0.1:1/defs.json#/$defs/X"}}}`)},
+				{Path: "httpref2.yaml", Data: []byte("$id: https://example.com/hr2\ntype: object\nproperties:\n  r:\n    $ref: http://127.0.0.1:1/whole.yaml\n")}, {Path: "adir/keep", Data: []byte("x")}},
 				Args: fc.args, Seed: map[string][]byte{"o.go": []byte(sentinel), "same.go": []byte(sentinel), "oa.go": []byte(sentinel), "ob.go": []byte(sentinel)}, Stdin: []byte("{ not json")}
 			jobs = append(jobs, &c18job{class: "cli:" + fc.label, label: fc.label, inv: inv, must: fc.must, outFile: "o.go"})
 		}
